@@ -564,6 +564,7 @@ func (r *pkgRun) evalValue(di, round int) {
 
 	// ---- C01 ----
 	decodedCanon := ""
+	unmarshalRejected := ""
 	roundTripOK := true
 	if r.on("C01") || r.on("C09") {
 		outcome := "ok"
@@ -603,9 +604,16 @@ func (r *pkgRun) evalValue(di, round int) {
 				if err != nil {
 					outcome = "fail"
 					r.fail("C01", "oracle", di, op, "ok "+want, rd.Short(), "", "decoding the output of a real encoder failed; V = "+vs)
+					if name == "unmarshal" && ei == 0 {
+						unmarshalRejected = rd.Short()
+					}
 					continue
 				}
 				gc := got.CanonString()
+				if name == "mustunmarshal" && ei == 0 && unmarshalRejected != "" && gc == want && r.on("C09") {
+					// C09: where both exist the two decoders agree on every valid encoding
+					r.fail("C09", "oracle", di, op, unmarshalRejected+" (UnmarshalBebop)", rd.Short(), "", "MustUnmarshalBebop decodes a valid encoding that UnmarshalBebop rejects")
+				}
 				if name == "unmarshal" && ei == 0 {
 					decodedCanon = gc
 				}
@@ -902,6 +910,8 @@ func (r *pkgRun) c06(di int, B []byte, hexB, bucket string) {
 		} else {
 			outcome = rd.Class
 			r.badReal("C07", di, op2, rd, false, "a truncation is a byte string like any other")
+			// ... and a stream that ends early is a reader that fails with io.EOF: C08 quantifies over it
+			r.badReal("C08", di, op2, rd, false, "a stream that ends early is a failing reader")
 		}
 		mop2 := fmt.Sprintf("decs %d %s", di, cut)
 		if r.longRound {
